@@ -129,11 +129,19 @@ ChainTx ==
              out |-> IF W.ok THEN W.out ELSE <<>>]
   /\ UNCHANGED <<block, mbpParam, mbpMax>>
 
+WouldBeF4 == /\ aL.size = 1 /\ qL.size = 0 /\ val[aL.head].exitB = block + 1
+             /\ SyncPOS(CUR, block + 1, MBP).S.aL.size = 0
+
 Next == /\ l <= Len(Trace) /\ l' = l + 1
         /\ \/ Step
            \/ Ev.e = "ChainTx" /\ ChainTx
            \/ Ev.e = "SetSwitches" /\ UNCHANGED core
                                   /\ res' = [op |-> "SetSwitches", ok |-> TRUE, msg |-> "", amt |-> Ev.v, a |-> NoVal, d |-> 0, act |-> FALSE, upd |-> FALSE]
+           \* chain mode: nobody is entitled to produce block Ev.n.  State unchanged; WouldBeF4 tells whether it is the
+           \* known shape (the next SyncPOS runs the exit of the only leader, the queue is empty)
+           \/ Ev.e = "ChainHalt" /\ Ev.n = block + 1 /\ UNCHANGED core
+                                /\ (WouldBeF4 => PrintT(<<"F4-OBSERVED", l - 1>>))
+                                /\ res' = [op |-> "ChainHalt", ok |-> WouldBeF4, msg |-> "", amt |-> 0, a |-> NoVal, d |-> 0, act |-> FALSE, upd |-> FALSE]
         /\ sw' = IF Ev.e = "SetSwitches" THEN Ev.v ELSE IF Ev.e = "Reset" THEN 0 ELSE sw
 Spec == Init /\ [][Next]_tvars
 
@@ -147,7 +155,7 @@ Totals(v, a) ==
 
 MoneyOps == {"AddValidation", "IncreaseStake", "DecreaseStake", "WithdrawStake", "AddDelegation",
              "SignalDelegationExit", "WithdrawDelegation", "Donate", "DrainCheck"}
-SetOps == {"SignalExit", "SetBeneficiary", "SetOnline", "SetMBP", "Block", "GenesisHousekeep", "SetSwitches"}
+SetOps == {"SignalExit", "SetBeneficiary", "SetOnline", "SetMBP", "Block", "GenesisHousekeep", "SetSwitches", "ChainHalt"}
 
 ResultMismatch(R) ==
   IF R.e = "Reset" THEN {}
@@ -161,6 +169,7 @@ ResultMismatch(R) ==
        \cup (IF R.e = "ChainTx" /\ res.ok /\ R.ok /\
                  (\E k \in 1..Len(R.cs) : res.out[k] # (IF R.cs[k].e = "AddDelegation" THEN R.cs[k].id ELSE R.cs[k].paid))
              THEN {<<"result.out", res.out, [k \in 1..Len(R.cs) |-> <<R.cs[k].e, R.cs[k].paid, R.cs[k].id>>]>>} ELSE {})
+       \cup (IF R.e = "ChainHalt" /\ ~res.ok THEN {<<"chain-halted-not-F4", R.why>>} ELSE {})
        \* the long-lived consensus instance (leader-group cache, total weight) must accept the packer's block
        \cup (IF R.e = "Block" /\ Has(R, "cons") /\ R.cons # "ok" THEN {<<"consensus-rejected-packer-block", R.cons>>} ELSE {})
        \cup (IF R.e = "DrainCheck" /\ ~Drained
